@@ -5,7 +5,7 @@ b = json.load(open('/root/.vp/BASELINE.json'))
 stable = set(b['stable_pass'])
 out = '/var/tmp/verif-baseline.json'
 with open(out, 'w') as f:
-    subprocess.run('cd /repo && go test -mod=mod -json -vet=off -count=1 -timeout 25m ./...', shell=True, stdout=f, stderr=subprocess.DEVNULL)
+    subprocess.run('cd /repo && GOFLAGS=-mod=mod GOPROXY=off GOSUMDB=off GOTOOLCHAIN=local go1.26.8 test -mod=mod -json -vet=off -count=1 -timeout 25m ./...', shell=True, stdout=f, stderr=subprocess.DEVNULL)
 res = {}
 for line in open(out, errors='replace'):
     try:
